@@ -28,6 +28,7 @@ def check(ctx: Ctx) -> None:
     mg = proj.func('cli._migrate_csv_to_rules')
     r1_r2(ctx, mg)
     r3(ctx)
+    r6_no_delete(ctx)
     r4(ctx)
     r5(ctx)
 
@@ -45,6 +46,20 @@ def _discovery_order(ctx: Ctx) -> None:
     ctx.check(setting_first and csv_else, 'C15.R1', lc, 'discovery-order', 'rules are discovered from the merchants_file setting, else from config/merchant_categories.csv',
               'load_config no longer discovers rules as (setting, else legacy CSV): the typestate model of the migration check does not apply')
     auto = any(isinstance(n, ast.Constant) and n.value == 'merchants.rules' for n in ast.walk(lc.node))
+    if auto:
+        # the new file is authoritative as soon as it exists: then it must never exist half-written
+        # (otherwise a crash during the migration's first write leaves a budget that classifies with a truncated rule set while the complete CSV is still there)
+        mg = proj.func('cli._migrate_csv_to_rules')
+        fl = get_flow(proj, mg)
+        direct = [e for e in effects_in(mg) if e.kind == 'write' and "const:'merchants.rules'" in fl.atoms(e.path, e.node)]
+        atomic = any(e.kind == 'move' and e.dest is not None and "const:'merchants.rules'" in fl.atoms(e.dest, e.node) for e in effects_in(mg))
+        if direct and not atomic:
+            ctx.fail('C15.R1', lc, 'discoverable-before-complete',
+                     'load_config now prefers config/merchants.rules whenever the file exists, but the migration creates that file by writing it in place (open(..., "w")): '
+                     'interrupted during that write, the budget classifies with an empty / truncated merchants.rules although the complete CSV is still on disk, and re-running does not '
+                     'repair it (the format is seen as new; init skips the migration because the file exists)', direct[0].node)
+        else:
+            ctx.ok('C15.R1', lc, 'auto-discovered merchants.rules is created atomically (temp file + rename)', construct='discoverable-before-complete')
     return auto
 
 
@@ -131,6 +146,20 @@ def r3(ctx: Ctx) -> None:
                          f'shutil.move({src(e.path)}, {dst}) without testing that {dst} does not exist: an existing file is silently overwritten (a previous .bak backup is lost) and an existing '
                          f'directory makes shutil.move nest the source inside it (config -> tally/config/config)', e.node)
     ctx.need(not (n < 3), f'C15.R3: only {n} moves found')
+
+
+def r6_no_delete(ctx: Ctx) -> None:
+    proj = ctx.proj
+    for qn in ('cli.migrate_v0_to_v1', 'cli.run_migrations'):
+        f = proj.func(qn)
+        dels = [e for e in effects_in(f) if e.kind == 'delete']
+        copies = [e for e in effects_in(f) if e.api in ('shutil.copytree', 'shutil.copy', 'shutil.copy2', 'shutil.copyfile')]
+        if dels:
+            ctx.fail('C15.R3', f, f'delete:{dels[0].api}',
+                     f'{dels[0].label} (line {dels[0].node.lineno})' + (f' after {copies[0].api}' if copies else '') + ': the layout migration removes user files instead of renaming them; a crash or an '
+                     f'unlink error during the delete leaves a stump ./config next to the complete ./tally/config, find_config_dir prefers the stump, and re-running fails because the target exists', dels[0].node)
+        else:
+            ctx.ok('C15.R3', f, 'the layout migration only moves (renames) directories, it deletes nothing', construct='delete:none')
 
 
 def r4(ctx: Ctx) -> None:
